@@ -372,10 +372,16 @@ def load_known():
     return dict(findings=[])
 
 def load_baseline(prop_id):
-    p = os.path.join(VERIF, 'baseline', prop_id + '.json')
-    if os.path.exists(p):
-        return json.load(open(p))
-    return None
+    """recorded named obligations per harness.  A harness may serve several properties; an obligation recorded
+    under ANY of them held on the pinned tree, so the union over all baseline files is used for the harnesses
+    of this property (harness names are unique across contracts/)."""
+    bl = {}
+    for q in sorted(glob.glob(os.path.join(VERIF, 'baseline', 'C*.json'))):
+        try: other = json.load(open(q))
+        except Exception: continue
+        for h, names in other.items():
+            bl[h] = sorted(set(bl.get(h, [])) | set(names))
+    return bl or None
 
 def main():
     ap = argparse.ArgumentParser()
